@@ -614,6 +614,27 @@ func init() {
 		st[fieldIndex(T, "cid")] = Struct{sym.Str(string(cidBytes))}
 		st[fieldIndex(T, "raw")] = bytesOf("cbor-node")
 		st[fieldIndex(T, "obj")] = a[0]
+		// the links of the node: one per CID value of a wrapped map (what the real
+		// WrapObject finds by traversing the object)
+		if it, ok := a[0].(Iface); ok {
+			if mp, ok := it.V.(*Map); ok && mp != nil {
+				if mt, ok := it.T.Underlying().(*types.Map); ok && strings.HasSuffix(mt.Elem().String(), "go-cid.Cid") {
+					LT := m.eng.nativeType("github.com/ipfs/go-ipld-format.Link")
+					var links []Value
+					for _, e := range mp.entries {
+						if e.deleted {
+							continue
+						}
+						l := zero(LT).(Struct)
+						l[fieldIndex(LT, "Cid")] = copyVal(e.val)
+						lp := new(Value)
+						*lp = l
+						links = append(links, lp)
+					}
+					st[fieldIndex(T, "links")] = links
+				}
+			}
+		}
 		p := new(Value)
 		*p = st
 		return Tuple{p, Iface{}}
